@@ -11,7 +11,7 @@ from props.c05 import Case, response, auto_ridx, mp_body, ct_header, prng
 PID = "C17"
 THEOREMS = ["C17_mpx_safe", "C17_get_boundary_safe", "C17_write_cb_safe", "C17_dlw_total", "C17_confinement",
             "C17_verified", "C17_mismatch_zeroed", "C17_lit_contract", "C17_session", "C17_session_valid_untouched",
-            "C17_reset_reestablishes", "C17_rescan_sound", "C17_rescan_restart"]
+            "C17_reset_reestablishes", "C17_rescan_sound", "C17_rescan_restart", "C17_clear_error_keeps_invariant"]
 ASSUMPTIONS = [
     "PARTIAL by design: the theorems cover index arithmetic and control flow of the model (every buffer read goes "
     "through a bounds-checked accessor; regex oracle under the contract 'group offsets lie inside the searched "
@@ -25,6 +25,9 @@ ASSUMPTIONS = [
     "the file: valid iff the extent is inside the file and hashes to the digest, else unknown; hash context finalised, "
     "descriptor at the start of the data section), not by a transcription of validate_checksums (that is C09); the whole-data "
     "checksum step of the scan is not modelled; model and code are compared on every session case including the scans",
+    "zck_clear_error between transfers is part of the session model (Dl/Session.v clear_error: every error the download model sets is "
+    "recoverable) and of the correspondence; while an error is pending zck_get_missing_range returns NULL, no range is set and header lines / "
+    "fragments must be refused cleanly; zck_clear_error INSIDE a transfer (opts clr) is exercised on the implementation only (sanitizer oracle)",
     "same model, driver and harness as C05 (Dl/DlWrite.v, Dl/Multipart.v, ocaml/drv_c17.ml, harness/zh_c17.c)",
     "the transport stops at the first short return; continuing after zck_clear_error is exercised on the implementation "
     "only (sanitizer oracle), not compared with the model",
@@ -255,6 +258,39 @@ def gen_sessions(tier, rng):
                                   kind="session")
                         if nm == "good":
                             c.expect = c05.expect_for(c)
+                        cases.append(c)
+    # ---- error state across transfers: a response that leaves a recoverable error (part header without a usable
+    # content-range, garbage instead of a part header, ...), then transfers while the error is still pending (no range can
+    # be computed; header lines and fragments must be refused cleanly), then zck_clear_error and a well-formed transfer
+    for ti, chunks in enumerate(tables):
+        want0 = missing(chunks, set())
+        B = b"sEss10n"
+        hg, bg, _ = response_spans(chunks, want0, 24, "mp")
+        hp, bp, _ = response_spans(chunks, want0, 24, "plain" if len(runs_of(want0, chunks)) == 1 else "mp")
+        bad_bodies = [("norange", b"\r\n--" + B + b"\r\nContent-Type: text/plain\r\n\r\nxxxx"),
+                      ("garbage-hdr", b"garbage without any delimiter\r\n\r\nyyyy"),
+                      ("norange-after-part", bg[:bg.index(b"\r\n--" + B, 10)] + b"\r\n--" + B + b"\r\nX-Nothing: 1\r\n\r\nzzzz")]
+        pend_hdrs = [[ct_header(B)], [ct_header(b"other"), b"X: y\r\n"], [b"\r\n"], []]
+        for nm, bad in bad_bodies:
+            for pi, ph in enumerate(pend_hdrs):
+                for steps in ("e", "er", "re"):
+                    for parts in ("w", "k1", "k7"):
+                        if nm == "norange-after-part":
+                            # the chunks of the first part were delivered before the error: the retry asks for the rest
+                            want1 = missing(chunks, set(runs_of(want0, chunks)[0]))
+                            h3, b3, _ = response_spans(chunks, want1, 24, "mp" if pi % 2 == 0 or len(runs_of(want1, chunks)) != 1 else "plain")
+                        else:
+                            h3, b3 = (hg, bg) if pi % 2 == 0 else (hp, bp)
+                        trs = [(hg, bad, parts),                       # sets the error (callback may still report success)
+                               (ph, bg[:40], "k9"),                    # error pending: everything refused
+                               (h3, b3, "k5", steps)]                  # cleared: must work
+                        if pi == 3:
+                            trs.insert(2, (ph, b"", "w", "e"))          # clear, a transfer without any data, then the real one
+                        c = SCase("sess17-err:%d:%s:h%d:%s:%s" % (ti, nm, pi, steps, parts), chunks, trs, kind="session")
+                        c.expect = c05.expect_for(c)
+                        if nm == "norange-after-part":
+                            # chunks of the first part were delivered before the error: still all valid at the end
+                            pass
                         cases.append(c)
     return cases
 
